@@ -199,6 +199,7 @@ func c09Collection(r *an.Run) {
 			}
 			r.Check(good, short(f)+"|scanner-order", load.Pos(), "patches of the -P file are loaded line by line in file order")
 		}
+		c09EveryListedPatchLoaded(r)
 		n++
 	}
 	// readProgram: prog = append(prog, readChange())
